@@ -340,6 +340,37 @@ pub fn run(tier: Tier) -> i32 {
     for v in res.into_iter().flatten() {
         rep.violation(v.0, v.1, v.2);
     }
+    // verbosity flags must not change what fold prints
+    {
+        let fl = ["-q", "-qq", "-v", "-vv"];
+        let shapes_f: Vec<Vec<usize>> = vec![vec![5], vec![3, 4], vec![2, 3, 2]];
+        let mut n = 0u64;
+        for sh in &shapes_f {
+            let input = text_of(&labeled(sh, "lin"));
+            for (fname, _) in FILLS {
+                let base = run_sfs(&["fold", "--fill", fname], Stdin::Bytes(input.as_bytes()), &scratch);
+                for f in fl {
+                    n += 1;
+                    let o = run_sfs(&["fold", "--fill", fname, f], Stdin::Bytes(input.as_bytes()), &scratch);
+                    if o.code != base.code || o.stdout != base.stdout {
+                        rep.violation(
+                            format!("C05|cli|verbosity-changes-output|{f}"),
+                            format!("sfs fold --fill {fname} {f} on shape {sh:?}: {} {:?}; without the flag {} {:?}", o.status_str(), o.stdout_str(), base.status_str(), base.stdout_str()),
+                            J::obj([("kind", J::s("c05-flag")), ("shape", J::usizes(sh)), ("fill", J::s(fname)), ("flag", J::s(f))]),
+                        );
+                    }
+                }
+            }
+        }
+        rep.part(Part {
+            name: "cli: verbosity flags".into(),
+            evaluations: n,
+            nontrivial: n,
+            note: "3 shapes x 4 fills x {-q,-qq,-v,-vv}: same status and byte-identical stdout as without the flag".into(),
+            exhaustive: true,
+            extra: vec![],
+        });
+    }
     // `fold --output FILE` onto a fresh path and onto a longer existing file: the file must hold exactly what stdout would
     {
         let mut oj: Vec<(Vec<usize>, bool)> = Vec::new();
